@@ -488,3 +488,24 @@ Example C02_classfield_nonvacuous :
   cf_set RK_object [V2] V3 (CInst V2 0) = Raise TypeError /\
   cf_set RK_object [V2; V3] V2 (CInst V2 5) = Ok (CInst V2 5).
 Proof. exact cf_safe_nonvacuous. Qed.
+
+(* ---- uniqueItems is decided by EQUALITY, never by hash ---------------------------------------------------------------
+   The uniqueItems check of Array / Deque / Tuple in the model (uniq_check, on which C02_decision is proved and which
+   C02_src_unique_list/_deque/_tuple tie to verify_type_and_uniqueness) accepts a collection exactly when no element
+   is == to an earlier one: elements that are equal but hash or print differently (Structure instances with equal
+   content, 1 / 1.0 / True) are duplicates, unequal elements with equal hashes are not. *)
+From TP Require Import Fields.UniqueProofs.
+
+Theorem C02_unique_by_equality : forall l,
+  (uniq_check true l = Ok tt <-> pairwise_ne l) /\
+  (uniq_check true l = Raise ValueError <-> ~ pairwise_ne l) /\
+  uniq_check false l = Ok tt.
+Proof. exact uniq_check_by_equality. Qed.
+
+Print Assumptions C02_unique_by_equality.
+
+Example C02_unique_by_equality_nonvacuous :
+  py_unique [PStruct (s2p "Meas") [(s2p "x", PNum (NInt 1))]; PStruct (s2p "Meas") [(s2p "x", PNum (NFlt 1 0))]] = false /\
+  py_unique [PNum (NInt 1); PBool true] = false /\
+  py_unique [PNum (NInt (-1)); PNum (NInt (-2))] = true.
+Proof. exact unique_examples. Qed.
